@@ -24,7 +24,7 @@ T = {
          "Lean 4 theorems (fun_induction over the sweeps) + exhaustive small-scope model/implementation equality"),
  "C11": ("Full: Term operations coincide with evaluation on every choice, for every lawful version set (Lean theorems); the old F2 row is proved wrong (C11_F2_witness). Tie: all 65536 pairs of terms over 3 bound values through the cfg-guarded wrappers.", TB_PURE,
          "Lean 4 theorems by case analysis + exhaustive small-scope model/implementation equality"),
- "C12": ("Full except one clause: get_dependencies only after the matching choose_version and at most once, should_cancel first and between choose_version calls, the first query (arbitrary answer sequences), and 'choose_version's set is the set last passed to prioritize' (consistent answers, lawful sets) are Lean theorems; open (evidence.open_statements): the set is non-empty - covered by the trace automaton on every recorded run and by the exact mirror.", TB_SOLVER,
+ "C12": ("Full for lawful version sets with canonical emptiness: get_dependencies only after the matching choose_version and at most once, should_cancel first and between choose_version calls, the first query (arbitrary answer sequences), 'choose_version's set is the set last passed to prioritize' and 'that set has a member' (consistent answers; the latter from the invariant that no accumulated term of a live state is empty, PubgrubProofs/NonEmpty.lean) are Lean theorems. For version sets whose emptiness test is structural but not canonical (Range over a discrete order can hold a member-free segment such as 1<v<2) the theorem's hypothesis CanonicalEmpty does not hold and 'set != empty' is decided by the trace automaton on every recorded run and by the exact mirror.", TB_SOLVER,
          "Lean 4 theorems (phase/request coherence invariant over the coroutine) + trace automaton on recorded runs + exact-mirror correspondence"),
  "C13": ("Full: Lean theorems for arbitrary answer sequences (error at any point aborts with the matching variant and payload, nothing follows, causality of the trace, out-of-set answer yields Failure). Tie: fault enumeration - for every base case every callback index of the fault-free trace is failed once (and answered out of set once): exhaustive per case.", TB_SOLVER,
          "Lean 4 theorems over the coroutine + exhaustive per-case fault enumeration mirrored by the model"),
